@@ -264,6 +264,12 @@ func (p *poller) readWriteLoop() {
 							c.onConnected = nil
 							c.resetRead()
 						}
+						// EPOLLONESHOT: this event disabled the fd. When no read
+						// event came with it nothing below re-arms it, so a flush
+						// that stopped on EAGAIN would never be resumed.
+						if isOneshot && ev.Events&epollEventsRead == 0 {
+							c.ResetPollerEvent()
+						}
 					}
 
 					if ev.Events&epollEventsRead != 0 {
